@@ -277,12 +277,18 @@ class Normalizer(ast.NodeTransformer):
             # the loop-and-a-half `while True: x = E; if c: break; REST` is the priming-read loop `x = E; while not c: REST; x = E`
             second = node.body[1]
             if isinstance(first, ast.Assign) and len(first.targets) == 1 and isinstance(first.targets[0], ast.Name) and isinstance(first.value, ast.Call) \
+                    and isinstance(first.value.func, ast.Attribute) and first.value.func.attr == 'read' and isinstance(first.value.func.value, ast.Name) \
                     and isinstance(second, ast.If) and not second.orelse and len(second.body) == 1 and isinstance(second.body[0], ast.Break) and len(node.body) >= 3 \
                     and not any(isinstance(x, ast.Continue) for b in node.body[2:] for x in ast.walk(b)) \
                     and any(isinstance(x, ast.Name) and x.id == first.targets[0].id for x in ast.walk(second.test)):
                 import copy as _copy
                 again = _copy.deepcopy(first)
-                test = negate(second.test)
+                if isinstance(second.test, ast.BoolOp):
+                    # De Morgan: the loop condition is the conjunction / disjunction of the negated parts
+                    op_ = ast.And() if isinstance(second.test.op, ast.Or) else ast.Or()
+                    test = ast.copy_location(ast.BoolOp(op=op_, values=[negate(v_) for v_ in second.test.values]), second.test)
+                else:
+                    test = negate(second.test)
                 if isinstance(test, ast.UnaryOp) and isinstance(test.op, ast.Not) and isinstance(test.operand, ast.UnaryOp) and isinstance(test.operand.op, ast.Not):
                     test = test.operand.operand
                 loop = ast.copy_location(ast.While(test=test, body=node.body[2:] + [again], orelse=[]), node)
